@@ -728,7 +728,20 @@ def rule_graph_search(ctx):
     pushes = b.find_calls(lambda c: c.qname == 'std::vec::Vec::push')
     good = any(is_param(strip_path(b.orig_operand(c.args[1])), 2) for c in pushes)
     R.ob('E5-start', b.path, good, 'the search starts at src' if good else 'the search does not start at its src parameter', ctx.where(b), props=('C11', 'C05'))
-    true_defs = [d[1] for d in b.defs.get(0, []) if d[0] == 'stmt' and d[3]['k'] == 'use' and 'k' in d[3]['op'] and d[3]['op']['k'].get('int') == '1']
+    # blocks that make the answer `true`: a constant true stored in the return place, or in a flag local that is later returned
+    true_defs, flags, work = [], set(), [0]
+    while work:
+        l = work.pop()
+        if l in flags:
+            continue
+        flags.add(l)
+        for d in b.defs.get(l, []):
+            if d[0] == 'stmt' and d[3]['k'] == 'use':
+                o = d[3]['op']
+                if 'k' in o and o['k'].get('int') == '1':
+                    true_defs.append(d[1])
+                elif ('m' in o or 'c' in o) and not (o.get('m') or o.get('c'))['p']:
+                    work.append((o.get('m') or o.get('c'))['l'])
     hit_edges = set()
     for (bb, k), gd in b.guards.items():
         if gd.kind == 'bool' and gd.truth() is True:
@@ -1049,6 +1062,14 @@ def rule_graph_rank(ctx):
             targets.append(tuple(sorted((o.kind, str(o.key)) for o in b.orig_operand(p.args[0]))))
         loops.append((nx, sorted(targets), ok))
     good = len(loops) >= 2 and all(l[2] for l in loops) and len({tuple(l[1]) for l in loops}) == 1 and all(len(l[1]) == 2 for l in loops)
+    if not good and not loops:
+        # `(keys, ranks) = pairs.unzip()`: one key and one rank per pair by construction; both vectors must come from that one unzip
+        uz = b.find_calls(lambda c: c.qname == 'std::iter::Iterator::unzip')
+        zp = b.find_calls(lambda c: c.qname == 'std::iter::Iterator::zip' and len(c.args) == 2)
+        if len(uz) == 1 and len(zp) == 1:
+            srcs = [ancestors(b, b.orig_operand(a), depth=8) for a in zp[0].args]
+            if all(uz[0].bb in s_ or uz[0].bb in ctx.base_call_bbs(b.orig_operand(a)) for s_, a in zip(srcs, zp[0].args)):
+                good = True
     R.ob('G4-lockstep', b.path, good, 'keys and ranks of both change sets are collected in lock-step (one key and one rank per node)' if good
          else 'keys and ranks are not collected pairwise for every affected node', ctx.where(b), props=('C10', 'C07', 'C04'))
     # N3: each change set is sorted by the rank component of its (key, rank) pairs
@@ -1267,6 +1288,24 @@ def rule_graph_cycle(ctx):
                     elif ro.must_before(a.bb, lambda n: n == b_.bb) is None:
                         first_is_bwd = order[1] == (3,)
                     good = first_is_bwd is True
+                if not good and not nxs:
+                    # the same layout written as `backward.into_iter().chain(forward)`: the receiver of `chain` comes first
+                    def roots_of(op):
+                        rs = set()
+                        work = [ro.orig_operand(op)]
+                        anc = ancestors(ro, ro.orig_operand(op), depth=12)
+                        for o in ro.orig_operand(op):
+                            if o.kind == 'arg' and o.key in (2, 3):
+                                rs.add(o.key)
+                        for c in anc.values():
+                            for a in c.args:
+                                for o in ro.orig_operand(a):
+                                    if o.kind == 'arg' and o.key in (2, 3):
+                                        rs.add(o.key)
+                        return rs
+                    chains = ro.find_calls(lambda c: c.qname == 'std::iter::Iterator::chain' and len(c.args) == 2)
+                    if len(chains) == 1 and roots_of(chains[0].args[0]) == {3} and roots_of(chains[0].args[1]) == {2}:
+                        good = True
                 R.ob('C10-reorder-layout', ro.path, good, 'the nodes that reach src (backward set) are laid out before the nodes reachable from dst (forward set)' if good
                      else 'the two change sets are not laid out backward-set-first (the new edge would point backwards in the order)', ctx.where(ro), props=('C10', 'C07', 'C04'))
     else:
